@@ -47,6 +47,7 @@ package lua
 //@ func objectRational [C04]
 //@ logged
 //@ requires L != nil && Inv_api(L) && MetaOK(L) && valOK(lhs) && valOK(rhs)
+//@ ensures  "discipline": Disc(L) && top(L) == old(top(L)) && Inv_api(L) && MetaOK(L)
 //@ ensures  "no-handler": old(!(isFn(mtEvent(L, lhs, event)) && mtEvent(L, lhs, event) == mtEvent(L, rhs, event))) ==> result == 0 - 1
 //@ ensures  "handler-result": old(isFn(mtEvent(L, lhs, event)) && mtEvent(L, lhs, event) == mtEvent(L, rhs, event)) ==> result == 0 || result == 1
 //@ ensures  "no-handler-no-call": old(!(isFn(mtEvent(L, lhs, event)) && mtEvent(L, lhs, event) == mtEvent(L, rhs, event))) ==> ncalls() == old(ncalls())
@@ -57,7 +58,9 @@ package lua
 // equality: different types are different; primitives compare by value; tables/userdata are equal when identical;
 // otherwise (and only when not raw) __eq decides; rawequal never calls a handler
 //@ func equals [C01 C04 C10]
+//@ logged
 //@ requires L != nil && Inv_api(L) && MetaOK(L) && valOK(lhs) && valOK(rhs)
+//@ ensures  "discipline": Disc(L) && top(L) == old(top(L)) && Inv_api(L) && MetaOK(L)
 //@ ensures  "types-differ": lvtype(lhs) != lvtype(rhs) ==> !result
 //@ ensures  "primitive": lvtype(lhs) == lvtype(rhs) && !isTab(lhs) && !isUd(lhs) ==> (result <==> ite(isNum(lhs), num(lhs) == num(rhs), lhs == rhs))
 //@ ensures  "identical": (isTab(lhs) || isUd(lhs)) && lhs == rhs ==> result
@@ -69,11 +72,16 @@ package lua
 //@ ensures  "otherwise-no-call": !(!raw && (isTab(lhs) || isUd(lhs)) && lvtype(lhs) == lvtype(rhs) && lhs != rhs) ==> ncalls() == old(ncalls())
 //@ modifies everything
 
+// strCmp: byte-wise lexicographic order (a proper prefix is smaller): -1, 0 or +1
 //@ func strCmp [C01 C04]
+//@ logged
 //@ noraise
 //@ ensures  0 - 1 <= result && result <= 1
+//@ ensures  "equal": result == 0 ==> len(s1) == len(s2) && (forall j int :: 0 <= j && j < len(s1) ==> sbyte(s1, j) == sbyte(s2, j))
+//@ ensures  "less": result == 0 - 1 ==> exists k int :: 0 <= k && k <= len(s1) && k <= len(s2) && (forall j int :: 0 <= j && j < k ==> sbyte(s1, j) == sbyte(s2, j)) && ((k < len(s1) && k < len(s2) && sbyte(s1, k) < sbyte(s2, k)) || (k == len(s1) && k < len(s2)))
+//@ ensures  "greater": result == 1 ==> exists k int :: 0 <= k && k <= len(s1) && k <= len(s2) && (forall j int :: 0 <= j && j < k ==> sbyte(s1, j) == sbyte(s2, j)) && ((k < len(s1) && k < len(s2) && sbyte(s1, k) > sbyte(s2, k)) || (k == len(s2) && k < len(s1)))
 //@ modifies nothing
-//@ loop 1 invariant 0 <= i && i <= len2 && i <= len1 && len1 == len(s1) && len2 == len(s2)
+//@ loop 1 invariant 0 <= i && i <= len2 && i <= len1 && len1 == len(s1) && len2 == len(s2) && (forall j int :: 0 <= j && j < i ==> sbyte(s1, j) == sbyte(s2, j))
 
 // ---------------------------------------------------------------------------
 // Indexing (manual §2.8 "index"/"newindex"). One activation of getField makes at most one handler call; the ghost call
@@ -140,6 +148,8 @@ package lua
 // OP_ADD .. OP_POW (one handler, opArith): R(A) := RK(B) op RK(C). Two numbers are operated on directly (numberArith);
 // every other pair goes to objectArith with exactly (opcode, RK(B), RK(C)) in that order, and its result is stored.
 //@ func opArith [C01 C04 C07]
+// (proof hint: the value and the register of the direct numeric store)
+//@ assert@"rg.array[regi] = rg.alloc.LNumber2I(vali)" isNum(lhs) && isNum(rhs) && lhs == old(RKv(L, opB(inst))) && rhs == old(RKv(L, opC(inst))) && same(mkNum(vali), mkNum(numberArith(L, opOp(inst), num(lhs), num(rhs)))) && regi == lb(L) + opA(inst) && ncalls() == old(ncalls())
 //@ requires Frame(L) && L.reg.alloc != nil && offs(L) && opA(inst) < nreg(L) && rkOK(L, opB(inst)) && rkOK(L, opC(inst)) && IdxOK(L) && Inv_gfn(L) && regsValid(L) && lb(L) + nreg(L) <= top(L) && (forall k int :: 0 <= k && k < len(konst(L)) ==> valOK(konst(L)[k]))
 //@ requires opOp(inst) == OP_ADD || opOp(inst) == OP_SUB || opOp(inst) == OP_MUL || opOp(inst) == OP_DIV || opOp(inst) == OP_MOD || opOp(inst) == OP_POW
 //@ ensures  "two-numbers": old(isNum(RKv(L, opB(inst))) && isNum(RKv(L, opC(inst)))) ==> result == 0 && ncalls() == old(ncalls()) && R(L, opA(inst)) == old(mkNum(numberArith(L, opOp(inst), num(RKv(L, opB(inst))), num(RKv(L, opC(inst)))))) && keptExcept(L, lb(L) + opA(inst), lb(L) + opA(inst) + 1) && Frame(L) && pc(L) == old(pc(L))
@@ -149,10 +159,78 @@ package lua
 // OP_UNM: R(A) := -RK(B). A number, or a string convertible to a number, is negated directly; otherwise the __unm
 // handler of the operand is called once with the operand and its first result stored; without a handler it is an error.
 //@ func jumpTable[OP_UNM] [C01 C04 C07]
+// (proof hint: what sits on the stack when the handler is called)
+//@ assert@"L.Call(1, 1)" op == mtEvent(L, unaryv, "__unm") && isFn(op) && L.reg.array[top(L) - 2] == op && L.reg.array[top(L) - 1] == unaryv && unaryv == old(RKv(L, opB(inst))) && !arithNum(unaryv)
 //@ requires Frame(L) && offs(L) && opA(inst) < nreg(L) && rkOK(L, opB(inst)) && IdxOK(L) && Inv_gfn(L) && regsValid(L) && lb(L) + nreg(L) <= top(L) && (forall k int :: 0 <= k && k < len(konst(L)) ==> valOK(konst(L)[k]))
 //@ ensures  "numeric-operand-never-reaches-a-handler": old(arithNum(RKv(L, opB(inst)))) ==> result == 0 && ncalls() == old(ncalls()) && R(L, opA(inst)) == old(mkNum(-arithVal(RKv(L, opB(inst))))) && keptExcept(L, lb(L) + opA(inst), lb(L) + opA(inst) + 1) && Frame(L) && pc(L) == old(pc(L))
 //@ ensures  "handler-selected": !old(arithNum(RKv(L, opB(inst)))) ==> result == 0 && isFn(old(mtEvent(L, RKv(L, opB(inst)), "__unm"))) && ncalls() == old(ncalls()) + 1 && callfn(old(ncalls())) == fnid("(*LState).Call")
 //@ ensures  "handler-operands": !old(arithNum(RKv(L, opB(inst)))) ==> callargLV(old(ncalls()), 10) == old(mtEvent(L, RKv(L, opB(inst)), "__unm")) && callargLV(old(ncalls()), 11) == old(RKv(L, opB(inst))) && callargInt(old(ncalls()), 1) == 1 && callargInt(old(ncalls()), 2) == 1
 //@ ensures  "handler-result": !old(arithNum(RKv(L, opB(inst)))) ==> R(L, opA(inst)) == callresLV(old(ncalls()), 10)
 //@ raises when !arithNum(RKv(L, opB(inst)))
+//@ modifies everything
+
+// ---------------------------------------------------------------------------
+// order comparisons (manual §2.8 "lt" event): two numbers by value, two strings by strCmp, otherwise - same type only - the
+// __lt handler both operands share (through objectRational, which calls it once with (lhs, rhs)); anything else is an error
+// ---------------------------------------------------------------------------
+//@ func objectRationalWithError [C01 C04]
+//@ logged
+//@ requires L != nil && Inv_api(L) && MetaOK(L) && valOK(lhs) && valOK(rhs)
+//@ ensures  "discipline": Disc(L) && top(L) == old(top(L)) && Inv_api(L) && MetaOK(L)
+//@ ensures  "verdict-of-objectRational": ncalls() == old(ncalls()) + 1 && callfn(old(ncalls())) == fnid("objectRational") && callargLV(old(ncalls()), 1) == lhs && callargLV(old(ncalls()), 2) == rhs && callargStr(old(ncalls()), 3) == event && callresInt(old(ncalls()), 0) != 0 - 1 && (result <==> callresInt(old(ncalls()), 0) == 1)
+//@ raises when true
+//@ modifies everything
+
+//@ func lessThan [C01 C04 C18]
+//@ logged
+//@ requires L != nil && Inv_api(L) && MetaOK(L) && valOK(lhs) && valOK(rhs)
+//@ ensures  "discipline": Disc(L) && top(L) == old(top(L)) && Inv_api(L) && MetaOK(L)
+//@ ensures  "numbers": isNum(lhs) && isNum(rhs) ==> ncalls() == old(ncalls()) && (result <==> num(lhs) < num(rhs))
+//@ ensures  "strings": isStr(lhs) && isStr(rhs) ==> ncalls() == old(ncalls()) + 1 && callfn(old(ncalls())) == fnid("strCmp") && callargStr(old(ncalls()), 0) == str(lhs) && callargStr(old(ncalls()), 1) == str(rhs) && (result <==> callresInt(old(ncalls()), 0) < 0)
+//@ ensures  "handler": !isNum(lhs) && !isStr(lhs) ==> lvtype(lhs) == lvtype(rhs) && ncalls() == old(ncalls()) + 1 && callfn(old(ncalls())) == fnid("objectRationalWithError") && callargLV(old(ncalls()), 1) == lhs && callargLV(old(ncalls()), 2) == rhs && callargStr(old(ncalls()), 3) == "__lt" && (result <==> callresBool(old(ncalls()), 0))
+//@ raises when lvtype(lhs) != lvtype(rhs) || (!isNum(lhs) && !isStr(lhs))
+//@ modifies everything
+
+// OP_EQ / OP_LT: if ((RK(B) op RK(C)) ~= A) then pc++ - the operands are passed in source order, the next instruction
+// is skipped exactly when the comparison's truth value differs from A
+//@ func jumpTable[OP_EQ] [C01 C04 C07]
+//@ requires Frame(L) && offs(L) && rkOK(L, opB(inst)) && rkOK(L, opC(inst)) && IdxOK(L) && Inv_gfn(L) && regsValid(L) && lb(L) + nreg(L) <= top(L) && (forall k int :: 0 <= k && k < len(konst(L)) ==> valOK(konst(L)[k])) && pc(L) < len(code(L))
+//@ ensures  "via-equals": result == 0 && ncalls() == old(ncalls()) + 1 && callfn(old(ncalls())) == fnid("equals") && callargLV(old(ncalls()), 1) == old(RKv(L, opB(inst))) && callargLV(old(ncalls()), 2) == old(RKv(L, opC(inst))) && !callargBool(old(ncalls()), 3)
+//@ ensures  "skip": L.currentFrame == old(L.currentFrame) && pc(L) == old(pc(L)) + ite(ite(callresBool(old(ncalls()), 0), 0, 1) == opA(inst), 1, 0)
+//@ raises when true
+//@ modifies everything
+
+//@ func jumpTable[OP_LT] [C01 C04 C07]
+//@ requires Frame(L) && offs(L) && rkOK(L, opB(inst)) && rkOK(L, opC(inst)) && IdxOK(L) && Inv_gfn(L) && regsValid(L) && lb(L) + nreg(L) <= top(L) && (forall k int :: 0 <= k && k < len(konst(L)) ==> valOK(konst(L)[k])) && pc(L) < len(code(L))
+//@ ensures  "via-lessThan": result == 0 && ncalls() == old(ncalls()) + 1 && callfn(old(ncalls())) == fnid("lessThan") && callargLV(old(ncalls()), 1) == old(RKv(L, opB(inst))) && callargLV(old(ncalls()), 2) == old(RKv(L, opC(inst)))
+//@ ensures  "skip": L.currentFrame == old(L.currentFrame) && pc(L) == old(pc(L)) + ite(ite(callresBool(old(ncalls()), 0), 0, 1) == opA(inst), 1, 0)
+//@ raises when true
+//@ modifies everything
+
+// OP_LE (manual §2.8 "le" event): numbers by value, strings by strCmp; otherwise the shared __le handler through
+// objectRational(lhs, rhs, "__le"); WITHOUT such a handler the result is `not (rhs < lhs)` through the shared __lt handler
+// with the operands SWAPPED (objectRationalWithError(rhs, lhs, "__lt")); then the usual conditional skip
+//@ func jumpTable[OP_LE] [C01 C04 C07]
+//@ requires Frame(L) && offs(L) && rkOK(L, opB(inst)) && rkOK(L, opC(inst)) && IdxOK(L) && Inv_gfn(L) && regsValid(L) && lb(L) + nreg(L) <= top(L) && (forall k int :: 0 <= k && k < len(konst(L)) ==> valOK(konst(L)[k])) && pc(L) < len(code(L))
+//@ let@"if v == A {" verdict = ret
+//@ ensures  "numbers": old(isNum(RKv(L, opB(inst))) && isNum(RKv(L, opC(inst)))) ==> ncalls() == old(ncalls()) && (verdict <==> old(num(RKv(L, opB(inst))) <= num(RKv(L, opC(inst)))))
+//@ ensures  "strings": old(isStr(RKv(L, opB(inst))) && isStr(RKv(L, opC(inst)))) ==> ncalls() == old(ncalls()) + 1 && callfn(old(ncalls())) == fnid("strCmp") && callargStr(old(ncalls()), 0) == old(str(RKv(L, opB(inst)))) && callargStr(old(ncalls()), 1) == old(str(RKv(L, opC(inst)))) && (verdict <==> callresInt(old(ncalls()), 0) <= 0)
+//@ ensures  "le-handler-first": old(!isNum(RKv(L, opB(inst))) && !isStr(RKv(L, opB(inst)))) ==> ncalls() >= old(ncalls()) + 1 && callfn(old(ncalls())) == fnid("objectRational") && callargLV(old(ncalls()), 1) == old(RKv(L, opB(inst))) && callargLV(old(ncalls()), 2) == old(RKv(L, opC(inst))) && callargStr(old(ncalls()), 3) == "__le" && (callresInt(old(ncalls()), 0) == 1 ==> verdict && ncalls() == old(ncalls()) + 1) && (callresInt(old(ncalls()), 0) == 0 ==> !verdict && ncalls() == old(ncalls()) + 1)
+//@ ensures  "fallback-not-lt-swapped": old(!isNum(RKv(L, opB(inst))) && !isStr(RKv(L, opB(inst)))) && callresInt(old(ncalls()), 0) != 0 && callresInt(old(ncalls()), 0) != 1 ==> ncalls() == old(ncalls()) + 2 && callfn(old(ncalls()) + 1) == fnid("objectRationalWithError") && callargLV(old(ncalls()) + 1, 1) == old(RKv(L, opC(inst))) && callargLV(old(ncalls()) + 1, 2) == old(RKv(L, opB(inst))) && callargStr(old(ncalls()) + 1, 3) == "__lt" && (verdict <==> !callresBool(old(ncalls()) + 1, 0))
+//@ ensures  "skip": result == 0 && L.currentFrame == old(L.currentFrame) && pc(L) == old(pc(L)) + ite(ite(verdict, 0, 1) == opA(inst), 1, 0)
+//@ raises when lvtype(RKv(L, opB(inst))) != lvtype(RKv(L, opC(inst))) || (!isNum(RKv(L, opB(inst))) && !isStr(RKv(L, opB(inst))))
+//@ modifies everything
+
+// OP_LEN: R(A) := length of RK(B): a string's byte count; otherwise the __len handler of the operand when it has one
+// (called once with the operand, first result stored); otherwise, for a table, the primitive length (LTable.Len, a border
+// of the array part); otherwise an error
+//@ func jumpTable[OP_LEN] [C01 C04 C07]
+// (proof hints: what sits on the stack when the handler is called)
+//@ assert@"L.Call(1, 1)" op == mtEvent(L, lv, "__len") && isFn(op) && L.reg.array[top(L) - 2] == op && L.reg.array[top(L) - 1] == lv && lv == old(RKv(L, opB(inst)))
+//@ assert@"if ret.Type() == LTNumber {" ret == callresLV(ncalls() - 1, 10) && ncalls() == old(ncalls()) + 1
+//@ requires Frame(L) && L.reg.alloc != nil && offs(L) && opA(inst) < nreg(L) && rkOK(L, opB(inst)) && IdxOK(L) && Inv_gfn(L) && regsValid(L) && lb(L) + nreg(L) <= top(L) && (forall k int :: 0 <= k && k < len(konst(L)) ==> valOK(konst(L)[k]))
+//@ ensures  "string": old(isStr(RKv(L, opB(inst)))) ==> result == 0 && ncalls() == old(ncalls()) && same(R(L, opA(inst)), old(mkNum(i2f(len(str(RKv(L, opB(inst))))))))
+//@ ensures  "handler": old(!isStr(RKv(L, opB(inst))) && isFn(mtEvent(L, RKv(L, opB(inst)), "__len"))) ==> result == 0 && ncalls() == old(ncalls()) + 1 && callfn(old(ncalls())) == fnid("(*LState).Call") && callargLV(old(ncalls()), 10) == old(mtEvent(L, RKv(L, opB(inst)), "__len")) && callargLV(old(ncalls()), 11) == old(RKv(L, opB(inst))) && callargInt(old(ncalls()), 1) == 1 && callargInt(old(ncalls()), 2) == 1 && (R(L, opA(inst)) == callresLV(old(ncalls()), 10) || (isNum(callresLV(old(ncalls()), 10)) && same(R(L, opA(inst)), mkNum(num(callresLV(old(ncalls()), 10))))))
+//@ ensures  "table-primitive": old(isTab(RKv(L, opB(inst))) && !isFn(mtEvent(L, RKv(L, opB(inst)), "__len"))) ==> result == 0 && ncalls() == old(ncalls()) && isNum(R(L, opA(inst))) && (exists n int :: old(isListLen(tab(RKv(L, opB(inst))), n)) && same(R(L, opA(inst)), mkNum(i2f(n))))
+//@ raises when !isStr(RKv(L, opB(inst))) && (!isTab(RKv(L, opB(inst))) || isFn(mtEvent(L, RKv(L, opB(inst)), "__len")))
 //@ modifies everything
